@@ -56,8 +56,43 @@ def write_mmb(path, slots, boot=(0, 1, 2, 3), default_status=0xFF, names=None, t
                 fh.truncate(end)
 
 
-def gz(data, level=6, fname=None, mtime=0, members=1, extra=None, comment=None, hcrc=False):
-    """gzip `data` (RFC 1952) with optional header fields, split into members."""
+def _gz_member(part, level, fname, mtime, extra, comment, hcrc):
+    flg = 0
+    hdr = bytearray()
+    if extra is not None:
+        flg |= 4
+    if fname is not None:
+        flg |= 8
+    if comment is not None:
+        flg |= 16
+    if hcrc:
+        flg |= 2
+    hdr += bytes([0x1F, 0x8B, 8, flg])
+    hdr += int(mtime).to_bytes(4, "little")
+    hdr += bytes([2 if level == 9 else (4 if level == 1 else 0), 3])
+    if extra is not None:
+        hdr += len(extra).to_bytes(2, "little") + extra
+    if fname is not None:
+        hdr += fname + b"\0"
+    if comment is not None:
+        hdr += comment + b"\0"
+    if hcrc:
+        hdr += (zlib.crc32(bytes(hdr)) & 0xFFFF).to_bytes(2, "little")
+    co = zlib.compressobj(level, zlib.DEFLATED, -15)
+    body = co.compress(part) + co.flush()
+    out = bytes(hdr) + body
+    out += (zlib.crc32(part) & 0xFFFFFFFF).to_bytes(4, "little")
+    out += (len(part) & 0xFFFFFFFF).to_bytes(4, "little")
+    return out
+
+
+def gz(data, level=6, fname=None, mtime=0, members=1, extra=None, comment=None, hcrc=False, align=None):
+    """gzip `data` (RFC 1952) with optional header fields, split into members.
+
+    align=(modulus, delta): pad the FEXTRA field of each member so that every
+    member ends at a file offset == delta (mod modulus) -- this puts member
+    boundaries and the end of the file on (or next to) the reader's buffer
+    boundaries."""
     if members <= 1 or len(data) < members:
         parts = [data]
     else:
@@ -66,32 +101,20 @@ def gz(data, level=6, fname=None, mtime=0, members=1, extra=None, comment=None, 
         parts = [data[cuts[i]:cuts[i + 1]] for i in range(members)]
     out = bytearray()
     for part in parts:
-        flg = 0
-        hdr = bytearray()
-        if extra is not None:
-            flg |= 4
-        if fname is not None:
-            flg |= 8
-        if comment is not None:
-            flg |= 16
-        if hcrc:
-            flg |= 2
-        hdr += bytes([0x1F, 0x8B, 8, flg])
-        hdr += int(mtime).to_bytes(4, "little")
-        hdr += bytes([2 if level == 9 else (4 if level == 1 else 0), 3])
-        if extra is not None:
-            hdr += len(extra).to_bytes(2, "little") + extra
-        if fname is not None:
-            hdr += fname + b"\0"
-        if comment is not None:
-            hdr += comment + b"\0"
-        if hcrc:
-            hdr += (zlib.crc32(bytes(hdr)) & 0xFFFF).to_bytes(2, "little")
-        co = zlib.compressobj(level, zlib.DEFLATED, -15)
-        body = co.compress(part) + co.flush()
-        out += hdr + body
-        out += (zlib.crc32(part) & 0xFFFFFFFF).to_bytes(4, "little")
-        out += (len(part) & 0xFFFFFFFF).to_bytes(4, "little")
+        m = _gz_member(part, level, fname, mtime, extra, comment, hcrc)
+        if align:
+            modulus, delta = align
+            end = len(out) + len(m)
+            pad = (delta - end) % modulus
+            if pad:
+                ex = extra if extra is not None else None
+                if ex is None:
+                    pad = (pad - 2) % modulus          # the XLEN field itself takes two bytes
+                    ex = b""
+                ex2 = ex + bytes(pad)
+                if len(ex2) < 65536:
+                    m = _gz_member(part, level, fname, mtime, ex2, comment, hcrc)
+        out += m
     return bytes(out)
 
 
